@@ -28,14 +28,14 @@ OUTROOT = os.path.abspath(os.environ.get('VERIF_OUT', os.path.join(ROOT, 'out'))
 
 # per property: flavours and number of cases per tier  (flavour -> cases)
 BUDGET = {
-    'C06': {'quick': {'plain': 60000, 'asan': 30000}, 'thorough': {'plain': 600000, 'asan': 400000}},
-    'C08': {'quick': {'plain': 80000, 'asan': 8000}, 'thorough': {'plain': 1500000, 'asan': 200000}},
-    'C09': {'quick': {'plain': 80000, 'asan': 8000}, 'thorough': {'plain': 1500000, 'asan': 200000}},
-    'C10': {'quick': {'plain': 80000, 'asan': 8000}, 'thorough': {'plain': 1500000, 'asan': 200000}},
-    'C14': {'quick': {'plain': 6000, 'asan': 1500}, 'thorough': {'plain': 80000, 'asan': 30000}},
-    'C15': {'quick': {'plain': 12000, 'tsan': 2500, 'asan': 1500}, 'thorough': {'plain': 200000, 'tsan': 60000, 'asan': 20000}},
-    'C16': {'quick': {'plain': 8000, 'asan': 1500}, 'thorough': {'plain': 150000, 'asan': 30000}},
-    'C18': {'quick': {'plain': 80000, 'asan': 8000}, 'thorough': {'plain': 1500000, 'asan': 200000}},
+    'C06': {'quick': {'plain': 120000, 'asan': 40000}, 'thorough': {'plain': 1200000, 'asan': 500000}},
+    'C08': {'quick': {'plain': 200000, 'asan': 16000}, 'thorough': {'plain': 3000000, 'asan': 300000}},
+    'C09': {'quick': {'plain': 200000, 'asan': 16000}, 'thorough': {'plain': 3000000, 'asan': 300000}},
+    'C10': {'quick': {'plain': 200000, 'asan': 16000}, 'thorough': {'plain': 3000000, 'asan': 300000}},
+    'C14': {'quick': {'plain': 16000, 'asan': 3000}, 'thorough': {'plain': 200000, 'asan': 40000}},
+    'C15': {'quick': {'plain': 16000, 'tsan': 3000, 'asan': 2000}, 'thorough': {'plain': 300000, 'tsan': 80000, 'asan': 30000}},
+    'C16': {'quick': {'plain': 16000, 'asan': 2500}, 'thorough': {'plain': 250000, 'asan': 40000}},
+    'C18': {'quick': {'plain': 300000, 'asan': 20000}, 'thorough': {'plain': 4000000, 'asan': 400000}},
 }
 DEFAULT_SEED = {'C06': 60601, 'C08': 80801, 'C09': 90901, 'C10': 101001, 'C14': 141401, 'C15': 151501, 'C16': 161601, 'C18': 181801}
 
